@@ -9,6 +9,7 @@
 
 #include <yaclib/async/connect.hpp>
 #include <yaclib/async/contract.hpp>
+#include <yaclib/async/make.hpp>
 #include <yaclib/async/share.hpp>
 #include <yaclib/async/shared_contract.hpp>
 #include <yaclib/async/split.hpp>
@@ -62,11 +63,12 @@ enum ObsOp {
   kCoAwait,
   kCoAwaitAwait,
   kWait,
+  kUnwrap,  // a continuation of another pipeline returns this SharedFuture (flattening must copy while others hold it)
   kObsN
 };
 const char* const kObsName[] = {"Ready", "SubscribeInline", "Subscribe(e)", "ThenInline", "Then(e)", "Get const&", "copy",
                                 "drop-copy", "Share", "Share(e)", "Connect->Promise", "Connect->SharedPromise",
-                                "co_await sf", "co_await Await(sf)", "Wait"};
+                                "co_await sf", "co_await Await(sf)", "Wait", "returned from a continuation (unwrapping)"};
 
 struct Ctx {
   int pk = 0;
@@ -273,6 +275,9 @@ void Observer(Ctx& cx, SF sf, const SF& common, const std::vector<Op>& ops, yacl
           return std::move(r).Ok();
         }));
         break;
+      case kUnwrap:
+        pays.push_back(yaclib::MakeFuture<void, TErr>().ThenInline([copy = use]() { return copy; }));
+        break;
       default:
         yaclib::Wait(use);
         if (!use.Ready()) {
@@ -324,8 +329,8 @@ class Shared final : public vf::Family {
     return "case = fulfiller (value/error/exception/drop, optional Split/Share/Connect through the SharedPromise "
            "before Set) + 2..4 observer fibers, each with its own copy and a shared const reference, running a "
            "generated sequence of {Ready, SubscribeInline, Subscribe(e), ThenInline, Then(e), Get const&, copy, drop "
-           "copy, Share, Share(e), Connect to Promise / SharedPromise, co_await sf, co_await Await(sf), Wait, final "
-           "Get&&} x executor kind x schedule tape; oracle = every registered callback/awaiter fires exactly once and "
+           "copy, Share, Share(e), Connect to Promise / SharedPromise, co_await sf, co_await Await(sf), Wait, returned from a "
+           "continuation (unwrapping), final Get&&} x executor kind x schedule tape; oracle = every registered callback/awaiter fires exactly once and "
            "only after Set began, every value seen equals the set one and is alive (Tracked payload with checksum: "
            "moved-from / destroyed / torn reads flagged), Ready() => Touch() readable, Tracked and heap balance, no "
            "parked fiber; non-trivial = >= 2 observers and an observer operation executed while another callback was "
